@@ -455,6 +455,38 @@ func (e *env) live(rng *rand.Rand, tr []string, pi, pt time.Duration, periods in
 	e.res.Case(fmt.Sprint("live", tr, pi, pt), true)
 }
 
+// a heartbeat that falls into the upgrade window (queued on polling after the client already left it)
+// must reach the client over the new transport: a live peer is not killed by upgrading
+func (e *env) pingInUpgradeWindow(pi, pt time.Duration) {
+	id := e.begin("live-ping-in-upgrade-window", "polling", "websocket", false, false, pi, pt, 0)
+	ctl := gates.New()
+	ctl.HoldIf(func(pt string, k any) bool { return pt == "eio.s.upgrade.beforeSwap" })
+	ctl.Install()
+	defer gates.Uninstall()
+	s, err := newSess([]string{"polling", "websocket"}, eio.ServerConfig{PingInterval: pi, PingTimeout: pt, UpgradeTimeout: 10 * time.Second}, dialOK, false, 0)
+	if err != nil {
+		e.res.Inconclusive("rig", err.Error(), id)
+		e.end()
+		return
+	}
+	defer s.close()
+	wt := ctl.WaitFor(func(*gates.Waiter) bool { return true }, 4*time.Second)
+	if wt == nil {
+		e.res.Inconclusive("c14", "server never reached its swap point", id)
+	}
+	// the client is on websocket already, the server still on polling: wait for the next PING to be queued there
+	rig.WaitUntil(pi+2*time.Second, func() bool { return lastEvent("eio.s.ping") })
+	time.Sleep(30 * time.Millisecond)
+	ctl.OpenAll()
+	// well past the ping time-out: the peer answered, so nothing may be closed
+	time.Sleep(pt + 600*time.Millisecond)
+	s.cs.Send(msg("u", 1, false))
+	s.ss.Send(msg("d", 1, false))
+	e.judge(id, s, 1, 1, "websocket", "ping-in-upgrade-window")
+	e.end()
+	e.res.Case("ping-in-upgrade-window", true)
+}
+
 func TestC14(t *testing.T) {
 	out := vres.OutDir()
 	res := vres.New()
@@ -497,6 +529,7 @@ func TestC14(t *testing.T) {
 		e.dead([]string{"websocket"}, 1, "after-pong", 2*sec, sec)
 		e.dead([]string{"polling"}, 1, "after-ping", sec, 3*sec)
 	}
+	e.pingInUpgradeWindow(sec, sec)
 	e.live(rng, []string{"websocket"}, sec, sec, vres.Pick(5, 10))
 	e.live(rng, []string{"polling"}, sec, sec, vres.Pick(5, 10))
 	if vres.Tier() == "thorough" {
